@@ -249,7 +249,8 @@ def visit (f : Nat) (n : Node) : Node × Bool :=
   | _ => (n, false)
 
 /-- `Simplify`: visit the node, then walk its (rewritten) children.  Fuel bounds the depth;
-    `simplify` supplies `size n + 1`, which always suffices (`simp_fuel_irrelevant`). -/
+    `simplify` supplies `2 * size n + 1`; any fuel above the weight of the tree (≤ 2·size) gives
+    the same result (`simp_fuel_irrelevant`), so the fuel never runs out. -/
 def simp : Nat → Node → Node × Bool
   | 0, n => (n, false)
   | f+1, n =>
@@ -257,7 +258,7 @@ def simp : Nat → Node → Node × Bool
     let ks := r.1.kids.map (simp f)
     (.mk r.1.ty r.1.attrs r.1.val (ks.map Prod.fst), r.2 || ks.any Prod.snd)
 
-def simplify (n : Node) : Node × Bool := simp (size n + 1) n
+def simplify (n : Node) : Node × Bool := simp (2 * size n + 1) n
 
 /-! ## Layer B — typed fragments with a semantics -/
 
@@ -794,6 +795,56 @@ def inlineSub : Nat → List Stmt → List Stmt
 def cmdSubst (stmts : List Stmt) (s : ShState) : Bytes × Nat :=
   let r := runStmts stmts { s with out := [] }
   (r.1.out, r.1.status)
+
+/-! ## Embedding of the typed fragments into the dumped tree (layer B ↪ layer A)
+  `Proofs/C04Bridge.lean` proves that `simp` acts on the embedded trees exactly as the typed
+  simplifiers `Arith.top` / `Test.top` do. -/
+
+def litWord (v : Bytes) : Node := .mk .word [] [] [.mk .lit [] v []]
+
+/-- `$name` (`braces = false`) / `${name}`: the only non-zero attributes are `short` and `dollarValid`. -/
+def simplePE (braces : Bool) (n : Bytes) : Node :=
+  .mk .paramExp [if braces then 0 else 1, 0, 0, 0, 0, 0, 0, 0, 0, 0, 0, 0, 0, 0, 1] []
+    [nilNode, .mk .lit [] n [], nilNode, nilNode, .mk .list [] [] [], nilNode, nilNode, nilNode, nilNode, nilNode]
+
+/-- `q`, `c`: the numeric values of `TernQuest` and `TernColon`. -/
+def Arith.toNode (q c : Nat) : Arith → Node
+  | .lit v => litWord v
+  | .dollar b n => .mk .word [] [] [simplePE b n]
+  | .paren x => .mk .parenArithm [] [] [x.toNode q c]
+  | .unary op post x => .mk .unaryArithm [op, if post then 1 else 0] [] [x.toNode q c]
+  | .binary op x y => .mk .binaryArithm [op] [] [x.toNode q c, y.toNode q c]
+  | .tern x a b => .mk .binaryArithm [q] [] [x.toNode q c, .mk .binaryArithm [c] [] [a.toNode q c, b.toNode q c]]
+
+def Arith.depth : Arith → Nat
+  | .lit _ => 1
+  | .dollar _ _ => 1
+  | .paren x => x.depth + 1
+  | .unary _ _ x => x.depth + 1
+  | .binary _ x y => max x.depth y.depth + 1
+  | .tern x a b => max x.depth (max a.depth b.depth + 1) + 1
+
+def TWord.toNode : TWord → Node
+  | .bare p => .mk .word [] [] [simplePE false [UInt8.ofNat p]]
+  | .quoted p => .mk .word [] [] [.mk .dbl [0] [] [simplePE false [UInt8.ofNat p]]]
+  | .other w => litWord [UInt8.ofNat w]
+
+def Test.toNode : Test → Node
+  | .word w => w.toNode
+  | .paren x => .mk .parenTest [] [] [x.toNode]
+  | .not x => .mk .unaryTest [tsNot] [] [x.toNode]
+  | .un op w => .mk .unaryTest [op] [] [w.toNode]
+  | .logic c x y => .mk .binaryTest [if c then tsAnd else tsOr] [] [x.toNode, y.toNode]
+  | .bin op a b => .mk .binaryTest [op] [] [a.toNode, b.toNode]
+
+/-- Operator codes are used as the parser uses them: `un` never carries `!`. -/
+def Test.WF : Test → Prop
+  | .word _ => True
+  | .paren x => x.WF
+  | .not x => x.WF
+  | .un op _ => op ≠ tsNot
+  | .logic _ x y => x.WF ∧ y.WF
+  | .bin _ _ _ => True
 
 /-! ### Concrete primitives, used for the witnesses and non-vacuity examples in Props/C04.lean.
   (A decimal `atoi` without base prefixes, `strconv.FormatInt(_, 10)`, `+ - *` and `=`/`+=`.) -/
